@@ -193,6 +193,12 @@ func (w *World) Check(o Obs) (vs []eng.Violation) {
 		}
 	}
 
+	if o.Indexes {
+		for _, sx := range w.Cfg.Sorted {
+			vs = append(vs, w.checkSorted(sx[0], sx[1], offs)...)
+		}
+	}
+
 	if o.Keys != nil && m.KeyCol != "" {
 		for _, key := range o.Keys {
 			rows := m.RowsOfKey(key)
@@ -290,4 +296,40 @@ func (w *World) PointRead() {
 		}
 		return nil
 	})
+}
+
+// checkSorted: ascending iteration over a sorted index visits exactly the live rows
+// holding a value in the column, once each, values non-decreasing.
+func (w *World) checkSorted(name, col string, offs []uint32) (vs []eng.Violation) {
+	var want []uint32
+	for _, off := range offs {
+		if _, ok := w.M.Live[off].V[col]; ok {
+			want = append(want, off)
+		}
+	}
+	var got []uint32
+	var vals []string
+	w.C.Query(func(txn *column.Txn) error {
+		rd := txn.String(col)
+		return txn.Ascend(name, func(idx uint32) {
+			got = append(got, idx)
+			v, _ := rd.Get()
+			vals = append(vals, v)
+		})
+	})
+	gs := append([]uint32{}, got...)
+	sort.Slice(gs, func(i, j int) bool { return gs[i] < gs[j] })
+	if !sameU32(gs, want) {
+		return []eng.Violation{{Assert: "sorted/complete", Witness: "Ascend visits a different set of rows than the rows holding a value",
+			Detail: fmt.Sprintf("sorted index %q on %q: Ascend visited %s, rows holding a value: %s", name, col, u32s(got), u32s(want))}}
+	}
+	if !sort.StringsAreSorted(vals) {
+		n := len(vals)
+		if n > 12 {
+			n = 12
+		}
+		vs = append(vs, eng.Violation{Assert: "sorted/order", Witness: "values not in non-decreasing order",
+			Detail: fmt.Sprintf("sorted index %q on %q: Ascend visited %s with values %q..", name, col, u32s(got), vals[:n])})
+	}
+	return vs
 }
